@@ -67,6 +67,9 @@ void Variables::copy(const Variables &other) {
         if (var_map_ == nullptr)
             var_map_ = new VariableMap;
         *var_map_ = *other.var_map_;
+    } else {
+        //! other 没有变量，本对象原有的变量也要清掉
+        CHECK_DELETE_RESET_OBJ(var_map_);
     }
 }
 
